@@ -34,6 +34,11 @@ Enc(ns) ==
   \cup {<<InterT(<<FnP(U(Lits(h[1]))), Ref("E3", <<>>)>>), <<Alias("E3", FnP(U(Lits(h[2]))))>>>> : h \in Halves(ns)}
   \cup {<<UnionT(<<FnP(U(Lits(h[1]))), ParenT(FnP(U(Lits(h[2]))))>>), <<>>>> : h \in Halves(ns)}
   \cup {<<FnP(UnionT(<<U(Lits(h[1])), Ref("N3", <<>>)>>)), <<Alias("N3", U(Lits(h[2])))>>>> : h \in Halves(ns)}
+  \* parenthesised literal unions, an empty interface with two parents
+  \cup {<<FnP(ParenT(U(Lits(ns)))), <<>>>>}
+  \cup {<<FnP(UnionT(<<U(Lits(h[1])), ParenT(U(Lits(h[2])))>>)), <<>>>> : h \in Halves(ns)}
+  \cup {<<Ref("E7", <<>>), <<Interface("P7", <<>>, <<CallSig(U(Lits(h[1])))>>), Interface("Q7", <<>>, <<CallSig(U(Lits(h[2])))>>),
+                            Interface("E7", <<"P7", "Q7">>, <<>>)>>>> : h \in Halves(ns)}
   \cup {<<Ref("E4", <<>>), <<Interface("E4", <<>>, <<CallSig(U(Lits(h[1])))>>), Interface("E4", <<>>, <<CallSig(U(Lits(h[2])))>>)>>>> : h \in Halves(ns)}
 
 ShadowedE(d) ==       \* the same name, declaring the single event "zz" in the same style
@@ -45,7 +50,7 @@ Raw == {[type |-> e[1], decls |-> e[2], place |-> p, annotated |-> TRUE] : e \in
        \cup {[type |-> e[1], decls |-> e[2], place |-> "dual_scope", annotated |-> TRUE] :
                e \in {x \in UNION {Enc(ns) : ns \in NameSets} : Len(x[2]) = 1}}
        \cup {[type |-> Kw("any"), decls |-> <<>>, place |-> "before", annotated |-> FALSE]}
-CtxForms == {"slots2", "destructured", "slots2_destructured"}     \* SetupContext<E, S> / `{ emit }: SetupContext<E>` (beside the plain `ctx: SetupContext<E>`)
+CtxForms == {"slots2", "destructured", "slots2_destructured", "defaulted"}     \* SetupContext<E, S> / `{ emit }: SetupContext<E>` (beside the plain `ctx: SetupContext<E>`)
 
 RawX == {[ctxform |-> "plain"] @@ r : r \in Raw}
         \cup {[ctxform |-> cf] @@ r : r \in {x \in Raw : x.place = "before" /\ x.annotated}, cf \in CtxForms}
